@@ -5,6 +5,7 @@
 // Workload: complete enumeration of event sequences {request, success, failure} up to a depth bound
 // for small (N, MinSuccesses); state-graph walk for larger N; FilterAddrs on all subsets of a
 // representative address set in every pair of counter situations; read-only twins.
+// The swarm-level path (a real Swarm dialing through the detector) is in swarm_test.go.
 package c20
 
 import (
